@@ -126,6 +126,8 @@ end Range
 /-- operations of a double-ended exact-size iterator -/
 inductive IterOp
   | next | nextBack | nth (n : Nat) | nthBack (n : Nat) | sizeHint
+  /-- `it.clone().last()` and `it.clone().count()`: the consuming adaptors, observed on a copy -/
+  | last | count
   deriving DecidableEq, Repr
 
 /-- one step of a `Range<u8>`-backed iterator: output (`none` or the yielded index / the hint) and new state -/
@@ -135,6 +137,8 @@ def Range.step (r : Range) : IterOp → Option Nat × Range
   | .nth n => r.nth n
   | .nthBack n => r.nthBack n
   | .sizeHint => (some r.sizeHint, r)
+  | .last => (if r.start < r.stop then some (r.stop - 1) else none, r)
+  | .count => (some r.sizeHint, r)
 
 /-- the reference: a slice iterator, i.e. a list consumed from both ends -/
 def listStep (l : List Nat) : IterOp → Option Nat × List Nat
@@ -143,6 +147,8 @@ def listStep (l : List Nat) : IterOp → Option Nat × List Nat
   | .nth n => ((l.drop n).head?, l.drop (n + 1))
   | .nthBack n => ((l.take (l.length - n)).getLast?, l.take (l.length - n - 1))
   | .sizeHint => (some l.length, l)
+  | .last => (l.getLast?, l)
+  | .count => (some l.length, l)
 
 def Range.run (r : Range) : List IterOp → List (Option Nat)
   | [] => []
